@@ -257,6 +257,8 @@ func c06Fault(kind string) *fed.FaultAction {
 		return &fed.FaultAction{Kind: "status", Data: 500}
 	case "transport":
 		return &fed.FaultAction{Kind: "transport"}
+	case "eof":
+		return &fed.FaultAction{Kind: "eof"}
 	}
 	return &fed.FaultAction{Kind: "errors", Data: []interface{}{map[string]interface{}{"message": "injected"}}}
 }
@@ -266,17 +268,29 @@ func c06Fault(kind string) *fed.FaultAction {
 // with TWO mutation operations sent several times with alternating operationName.
 func genC06Case(r *hx.Rand) (coreCase, []string, bool) {
 	seed := r.U64() % 1000000
-	cf, err := buildCoreFed(seed, false, false)
-	if err != nil || cf.Merged.Schema.Mutation == nil {
+	// the federation is generated here (write-only services allowed) and embedded in the case
+	rr := hx.NewRand(seed)
+	o := fed.DefaultGen()
+	o.Subs, o.WriteOnly = false, true
+	spec := fed.Generate(rr, o)
+	data := fed.GenData(rr, spec, fed.DefaultData())
+	f, err := fed.Build(spec, data)
+	if err != nil {
 		return coreCase{}, nil, false
 	}
+	mr, err := f.Merged()
+	if err != nil || mr.Schema.Mutation == nil {
+		return coreCase{}, nil, false
+	}
+	cf := &coreFed{F: f, Merged: mr}
+	dump := &fedDump{Spec: spec, Data: data}
 	oo := fed.SafeOps()
 	oo.EntityIDArgs, oo.IDVar = true, true
 	op := fed.GenOp(r, cf.Merged.Schema, cf.F.Data, "mutation", oo)
 	if op == nil {
 		return coreCase{}, nil, false
 	}
-	cs := coreCase{FedSeed: seed, Query: op.Query, Vars: op.Variables, OpName: op.OpName, Kind: "mutation", Features: op.Features}
+	cs := coreCase{FedSeed: seed, Query: op.Query, Vars: op.Variables, OpName: op.OpName, Kind: "mutation", Features: op.Features, Fed: dump}
 	if r.Chance(1, 3) && op.OpName == nil {
 		so := fed.SafeOps()
 		so.NamedFrags, so.Variables, so.MaxDepth, so.EntityIDArgs = false, false, 2, true
@@ -378,8 +392,8 @@ func runC06(ctx *Ctx) error {
 			cs.MaxBatch = r.Range(1, 3)
 		}
 		if r.Chance(1, 3) {
-			cs.FaultAt = hx.Pick(r, []string{"child", "sibling"})
-			cs.FaultKind = hx.Pick(r, []string{"errors", "status", "transport"})
+			cs.FaultAt = hx.Pick(r, []string{"child", "sibling", "self"})
+			cs.FaultKind = hx.Pick(r, []string{"errors", "status", "transport", "eof"})
 		}
 		c06Check(ctx, 100+k, cs)
 		made++
